@@ -39,7 +39,8 @@ SPECS = {
     # C11
     "C11_power_table": ("Include/Digit.hpp", "        b_int >>= (bit - SizeT32{53});\n        number = SizeT64(b_int);\n        // }", "        b_int >>= (bit - SizeT32{53});\n        number = (SizeT64(b_int) & ~SizeT64{2});\n        // }"),
     # C12
-    "C12_move_assign_no_reset": ("Include/Value.hpp", "            val.setTypeToUndefined();\n\n            reset();\n            setType(type);", "            val.setTypeToUndefined();\n\n            if (type != Type()) {\n                reset();\n            }\n\n            setType(type);"),
+    # (the earlier "skip reset() for the same kind" variant was equivalent: the members' own move assignment releases the old content)
+    "C12_move_assign_keeps_number_source": ("Include/Value.hpp", "            val.setTypeToUndefined();\n\n            reset();\n            setType(type);", "            if (type < ValueType::UIntLong) {\n                val.setTypeToUndefined();\n            }\n\n            reset();\n            setType(type);"),
     "C12_merge_copies_undefined": ("Include/Value.hpp", "            while (src_val < end) {\n                if (!(src_val->isUndefined())) {\n                    array_ += *src_val;\n                }\n\n                ++src_val;\n            }", "            while (src_val < end) {\n                array_ += *src_val;\n                ++src_val;\n            }"),
     # C13
     "C13_remove_no_relink": ("Include/HashTable.hpp", "            if (item != nullptr) {\n                *index     = item->Next;\n                item->Next = 0;\n                item->Hash = 0;", "            if (item != nullptr) {\n                *index     = 0;\n                item->Next = 0;\n                item->Hash = 0;"),
